@@ -96,6 +96,12 @@ CHECKS = {
         text="Every base scenario {forward, reversed} x {single, multi-file} x {discrete, continuous} x each of 24 single faults is materialised and run through ladim.main with recording plug-ins; TLC decides from the description of the faulted set-up whether it is valid and requires: invalid => error exit before the first step and no output record; valid => the run completes.",
         note="Any error exit during start-up counts as refusal. Single faults only.",
         design="6 C20"),
+    "C17": dict(
+        level="model_checking",
+        technique="Index arithmetic of Interp/Vertical proved in bounds by TLC (MC_Interp InBounds/OwnCellLoaded, MC_Vertical LookupLaw); conformance under NUMBA_BOUNDSCHECK=1: ForceTrace with edge-hugging probes and LadimTrace on fast boundary-bound RK runs",
+        text="TLC proves for every sub-rectangle and every position of the clipped region that all four corners and both levels lie inside the loaded arrays. The code is bound to those indices by probes whose node values identify each index (a wrapped negative index changes the integer; a positive overrun raises IndexError under numba's bounds checker), concentrated on the margins of the loaded rectangle, and by end-to-end runs with up to ~0.85 cell per step towards every open boundary with RK2/RK4 whose stage positions must be the clipped ones.",
+        note="The memory access itself is observed only on executed scenarios. Known finding D15 (single-level grid) is reported as KNOWN-FINDING.",
+        design="6 C17"),
 }
 
 NOT_YET = {}
